@@ -167,6 +167,23 @@ def _norm_get(out):
     return (res, ws, us)
 
 
+def _warns(ctx, dci, stmt):
+    """`stmt` is `warnings.warn(...)` or a call of a method of the class on self whose body calls warnings.warn
+    outside any condition."""
+    if not (isinstance(stmt, ast.Expr) and isinstance(stmt.value, ast.Call)):
+        return False
+    f = stmt.value.func
+    if ast.unparse(f) in ("warnings.warn", "warn"):
+        return True
+    if isinstance(f, ast.Attribute) and isinstance(f.value, ast.Name) and f.value.id == "self":
+        for name in (f.attr, f"_{dci.name}{f.attr}"):
+            r = ctx.p.lookup_method(dci, name)
+            if r and r[1]:
+                return any(isinstance(s_, ast.Expr) and isinstance(s_.value, ast.Call) and ast.unparse(s_.value.func) in ("warnings.warn", "warn")
+                           for s_ in r[1][0].node.body)
+    return False
+
+
 def _check_main(ctx, rep: Report):
     rep.extra["exhaustive"] = True
     rep.rules["C18.T"] = "exhaustive decision tables of Alias.__get__/__set__/__delete__ vs the oracle"
@@ -270,8 +287,7 @@ def _check_main(ctx, rep: Report):
         else:
             body = [s for s in mm[0].node.body if not (isinstance(s, ast.Expr) and isinstance(s.value, ast.Constant))]
             params = [a.arg for a in mm[0].node.args.args][1:]
-            first = ast.unparse(body[0]) if body else ""
-            if "__warn()" not in first:
+            if not (body and _warns(ctx, dci, body[0])):
                 bad.append("does not warn first")
             rest = body[1:]
             want = f"super().{meth}({', '.join(params)})"
@@ -283,14 +299,6 @@ def _check_main(ctx, rep: Report):
         rep.oblige("C18.D", f"DeprecatedAlias.{meth}", not bad, "; ".join(bad))
         for b in bad:
             rep.violate(Violation("C18.D", f"C18.D|{meth}|{b[:50]}", f"DeprecatedAlias.{meth}: {b}", "", f"DeprecatedAlias.{meth}"))
-    c, m = ctx.p.lookup_method(dci, "_DeprecatedAlias__warn")
-    if m is None:
-        c, m = ctx.p.lookup_method(dci, "__warn")
-    ok = isinstance(m, list) and "warnings.warn" in ast.unparse(m[0].node)
-    rep.oblige("C18.D", "DeprecatedAlias.__warn", ok)
-    if not ok:
-        rep.violate(Violation("C18.D", "C18.D|warn", "DeprecatedAlias.__warn no longer emits a warning", "", "DeprecatedAlias.__warn"))
-
 
     # ---- COPY: the per-instance override lives in the instance __dict__; copies must carry it (shared with C02.DC)
     rep.rules["C18.COPY"] = "__deepcopy__ drops no __dict__ entry (a local alias override survives copy-on-write helpers and deepcopy)"
